@@ -62,6 +62,38 @@ extern "C" ssize_t recvfrom(int fd, void *buf, size_t len, int flags, struct soc
     }
     return real_recvfrom()(fd, buf, len, flags, from, fromlen);
 }
+// ---- OS-level effects on the client's socket (lesson d), reported on `M` lines: the descriptor is learnt when the
+// constructor calls socket(); epoll_ctl tells whether the loop is watching it for input (udp_.enable()/disable());
+// close() tells that the destructor released it.
+#include <sys/epoll.h>
+#include <set>
+static bool g_capture_socket = false;
+static int g_sock_fd = -1;
+static bool g_sock_watched = false;
+static std::set<int> g_closed;
+extern "C" int socket(int domain, int type, int protocol) {
+    typedef int (*fn)(int, int, int);
+    static fn real = (fn)dlsym(RTLD_NEXT, "socket");
+    int fd = real(domain, type, protocol);
+    if (g_capture_socket && fd >= 0) { g_sock_fd = fd; g_sock_watched = false; g_closed.erase(fd); }
+    return fd;
+}
+extern "C" int epoll_ctl(int epfd, int op, int fd, struct epoll_event *ev) {
+    typedef int (*fn)(int, int, int, struct epoll_event *);
+    static fn real = (fn)dlsym(RTLD_NEXT, "epoll_ctl");
+    int r = real(epfd, op, fd, ev);
+    if (fd == g_sock_fd && r == 0) {
+        if (op == EPOLL_CTL_DEL) g_sock_watched = false;
+        else g_sock_watched = ev && (ev->events & EPOLLIN);
+    }
+    return r;
+}
+extern "C" int close(int fd) {
+    typedef int (*fn)(int);
+    static fn real = (fn)dlsym(RTLD_NEXT, "close");
+    if (fd >= 0 && fd == g_sock_fd) g_closed.insert(fd);
+    return real(fd);
+}
 // where datagrams for the client must be sent.  If every sendto of the client was failed by the fault schedule the kernel
 // never auto-bound the socket: the harness binds it to an ephemeral loopback port itself (what the first successful
 // sendto would have done) so that `net`/`sock` can still deliver.
@@ -104,12 +136,25 @@ static DnsRequest::IPAddressVec servers(unsigned n) {
     return v;
 }
 
+static bool udp_line_due = false;                    // the `M udp=` line of the previous op is printed after the pass that served it
+// ~DnsRequest() with whatever is outstanding, then a fresh object (n servers; n = 0: the one-argument constructor).
+// Returns whether the old object's socket was closed and no longer watched by the loop.
+static bool renew(unsigned n) {
+    int old_fd = g_sock_fd;
+    delete dns;
+    bool released = old_fd < 0 || (g_closed.count(old_fd) != 0 && !g_sock_watched);
+    g_dns_fd = -1;
+    g_capture_socket = true;
+    dns = n ? new Probe(loop, servers(n)) : new Probe(loop);
+    g_capture_socket = false;
+    return released;
+}
+
 static void reset_case() {
     drain_socket();
     g_send_sched.clear(); g_sent.clear();
-    delete dns;
-    g_dns_fd = -1;
-    dns = new Probe(loop, servers(1));
+    renew(1);
+    udp_line_due = false;
     serial = 0;
     scripts.clear(); ids.clear(); touch_captures = true;
 }
@@ -260,10 +305,12 @@ int main() {
         std::string line;
         if (idle_passes > 0) { --idle_passes; return true; }      // a `sock` op is still being served: one recvfrom per pass
         drain_socket();
+        if (udp_line_due) { std::cout << "M udp=" << (g_sock_watched ? 1 : 0) << std::endl; udp_line_due = false; }
         if (!std::getline(std::cin, line)) { delete dns; dns = nullptr; return false; }
         auto w = vh::words(line);
         if (w.empty()) return true;
         if (w[0] == "case") { reset_case(); std::cout << line << std::endl; return true; }
+        udp_line_due = true;
         uint64_t n = 0; std::vector<uint8_t> d; std::vector<ActT> acts; std::vector<int> nats; std::vector<KAnsT> kans;
         if (w[0] == "servers" && w.size() == 2 && vh::to_u64(w[1], n) && n < 4) {
             dns->setDnsIPAddresses(servers((unsigned)n));
@@ -323,11 +370,18 @@ int main() {
                 real_sendto()(g_tx, d.data(), d.size(), 0, (struct sockaddr *)&a, sizeof a);   // picked up in the next pass
                 net_pending = true;
             }
+        } else if (w[0] == "adv" && w.size() == 2 && vh::to_u64(w[1], n) && n < (1ULL << 34)) {
+            std::cout << "P ret=0" << std::endl;
+            vt::advance_ms((int64_t)n);      // any amount of time; the next pass catches the monitor's timer up
+        } else if (w[0] == "destroy" && w.size() == 2 && vh::to_u64(w[1], n) && n < 4) {
+            bool released = renew((unsigned)n);
+            std::cout << "P ret=0" << std::endl << "M released=" << (released ? 1 : 0) << std::endl;
         } else if (w[0] == "tick" && w.size() == 1) {
             std::cout << "P ret=0" << std::endl;
             vt::advance_ms(1000);            // the monitor's timer (if enabled) fires in the next pass
         } else {
             std::cout << "bad-op" << std::endl;
+            udp_line_due = false;
         }
         return true;
     };
